@@ -60,4 +60,404 @@ theorem classLoop_sound (isRef : Bool) (st : GState) (n : Nat) (h : (classLoop s
     refine .range c0 d d2 _ _ _ ⟨h93, by simp⟩ hd ⟨fun h93' => hv (by rw [← hd2]; exact h93'), by simp⟩ ?_ h3
     rw [he2] at hgt
     simpa using hgt
+
+theorem not_pathEscapable_of_peek {st0 : GState}
+    (h1 : st0.peek = some 91 → False) (h2 : st0.peek = some 63 → False) (h3 : st0.peek = some 42 → False)
+    (h4 : st0.peek = some 43 → False) (h5 : st0.peek = some 92 → False) (h6 : st0.peek = some 33 → False) :
+    ∀ d, (gp st0).head? = some d → ¬ PathEscapable d.r := by
+  intro d hd hpe
+  have : st0.peek = some d.r := by rw [GState.peek_eq, hd]; rfl
+  rw [this] at h1 h2 h3 h4 h5 h6
+  unfold PathEscapable at hpe
+  rcases hpe with h | h | h | h | h | h <;> simp_all
+
+theorem weight_eq_one {items : List Item} (h : weight items = 1) : ∃ c, items = [.single c] := by
+  match items, h with
+  | [.single c], _ => exact ⟨c, rfl⟩
+  | .single _ :: .single _ :: _, h => simp [weight] at h <;> omega
+  | .single _ :: .range _ _ :: _, h => simp [weight] at h <;> omega
+  | .range _ _ :: _, h => simp [weight] at h <;> omega
+
+theorem classBody_nil_items {strict isRef : Bool} {l rest : List Sym}
+    (h : ClassBody strict isRef l [] rest) : ∃ c, l = c :: rest ∧ c.r = 93 := by
+  cases h with
+  | close c rest hc => exact ⟨c, rfl, hc⟩
+
+theorem esc_case {isRef p : Bool} {c0 : Sym} {st0 : GState} {x : Nat} (hpk : st0.peek = some x) (hc : c0.r = 92)
+    (hx : Escapable isRef x) (hE : Elems false isRef true (gp st0.next.2)) : Elems false isRef p (c0 :: gp st0) := by
+  obtain ⟨d, hd, hg⟩ := gp_cons_of_peek hpk
+  rw [hg]
+  exact .esc _ c0 d _ hc (by rw [hd]; exact hx) hE
+
+theorem esc_last {c0 : Sym} {st0 : GState} {x : Nat} (hpk : st0.peek = some x) (hnil : gp st0.next.2 = []) :
+    symRune st0.next.1 = ((c0 :: gp st0).getLast?).map (·.r) := by
+  obtain ⟨d, hd, hg⟩ := gp_cons_of_peek hpk
+  rw [hg, hnil, GState.next_fst, hg]
+  rfl
+
+theorem classBody_last {strict isRef : Bool} {l : List Sym} {items : List Item} {rest : List Sym}
+    (h : ClassBody strict isRef l items rest) (hr : rest = []) : l.getLast?.map (·.r) = some 93 := by
+  induction h with
+  | close c rest hc => subst hr; simp [hc]
+  | single c l items rest hm hh hb ih =>
+    have := ih hr
+    cases l with
+    | nil => exact absurd hb (fun h => classBody_ne_nil h)
+    | cons a b => simpa [List.getLast?_cons_cons] using this
+  | range lo d hi l items rest hm hd hm2 hle hb ih =>
+    have := ih hr
+    cases l with
+    | nil => exact absurd hb (fun h => classBody_ne_nil h)
+    | cons a b => simpa [List.getLast?_cons_cons] using this
+
+theorem switchBody_sound (isRef p : Bool) (c0 : Sym) (st0 : GState)
+    (h : (switchBody isRef p (some c0.r) st0).state.errs = []) :
+    ∃ c' pr st1, switchBody isRef p (some c0.r) st0 = .ok (c', pr, st1) ∧
+      (Elems false isRef pr (gp st1) → Elems false isRef p (c0 :: gp st0)) ∧
+      (gp st1 = [] → c' = ((c0 :: gp st0).getLast?).map (·.r)) := by
+  have he : ∀ (s : GState) m, (s.error m).errs ≠ [] := GState.error_errs_ne_nil
+  have hp : ∀ {a b : List GErr}, a <+: b → b = [] → a = [] := nil_of_prefix_nil
+  have hn : ∀ s : GState, s.errs <+: s.next.2.errs := GState.next_prefix
+  have hcl := classLoop_sound isRef st0 0
+  generalize hres : switchBody isRef p (some c0.r) st0 = res at h ⊢
+  unfold switchBody at hres
+  (repeat' split at hres) <;> subst hres <;> simp only [SwitchRes.state] at h
+  all_goals (try (exfalso; grind))
+  all_goals refine ⟨_, _, _, rfl, fun hE => ?_, fun hnil => ?_⟩
+  all_goals (try simp only [Option.some.injEq] at *)
+  all_goals first
+    | exact esc_last (by assumption) hnil
+    | (rw [hnil]; rfl)
+    | exact esc_case (by assumption) (by assumption) (by unfold Escapable; simp_all) hE
+    | exact .bslash _ c0 _ (by simp_all) (by assumption) (not_pathEscapable_of_peek (by assumption) (by assumption) (by assumption) (by assumption) (by assumption) (by assumption)) hE
+    | (have : p = true := by simp_all
+       subst this
+       exact .opt c0 _ (by omega) hE)
+    | exact .star _ c0 _ (by assumption) hE
+    | exact .ord _ c0 _ (by unfold Ordinary LineBreak RefInvalid; simp_all) hE
+    | (rename_i hpk _ _ _ _ heq hch1 _
+       rw [heq] at hcl
+       obtain ⟨items, h1, h2, h3, h4⟩ := hcl h
+       simp only [Nat.zero_add] at h2 h3
+       refine .cls _ c0 _ items _ (by assumption) h3 ⟨?_, ?_⟩ hE
+       · intro h0
+         subst h0
+         obtain ⟨c, hgp, hc93⟩ := classBody_nil_items h3
+         apply hpk
+         rw [GState.peek_eq, hgp]
+         simp [hc93]
+       · intro c hcs
+         subst hcs
+         exact hch1 (by rw [h2]; rfl))
+    | (rename_i hpk _ _ _ _ heq hch1 _
+       rw [heq] at hcl
+       obtain ⟨items, h1, h2, h3, h4⟩ := hcl h
+       simp only [ClassEnd.closed.injEq] at h1
+       subst h1
+       have h5 := classBody_last h3 hnil
+       cases hg : gp st0 with
+       | nil => rw [hg] at h3; exact absurd h3 (fun h => classBody_ne_nil h)
+       | cons a b => rw [hg] at h5; rw [List.getLast?_cons_cons]; exact h5.symm)
+
+
+/-- For refs: the last character is neither `/` nor `.`. -/
+def EndOK (isRef : Bool) (l : List Sym) : Prop :=
+  isRef = true → l.getLast?.map (·.r) ≠ some 47 ∧ l.getLast?.map (·.r) ≠ some 46
+
+theorem peek_none_iff (st : GState) : st.peek = none ↔ gp st = [] := by
+  rw [GState.peek_eq]
+  cases gp st <;> simp
+
+theorem validateNext_sound (isRef : Bool) (st : GState) (hne : gp st ≠ [])
+    (h : (validateNext isRef st).2.errs = []) :
+    ((validateNext isRef st).1 = false ↔ gp (validateNext isRef st).2 = []) ∧
+    (Elems false isRef (validateNext isRef st).2.prec (gp (validateNext isRef st).2) →
+      Elems false isRef st.prec (gp st)) ∧
+    (gp (validateNext isRef st).2 = [] → EndOK isRef (gp st)) := by
+  have he : ∀ (s : GState) m, (s.error m).errs ≠ [] := GState.error_errs_ne_nil
+  obtain ⟨c0, hc0, hg⟩ := gp_cons_of_ne_nil hne
+  unfold validateNext at h ⊢
+  simp only [] at h ⊢
+  have h1 := nil_of_prefix_nil (finishNext_prefix ..) h
+  rw [hc0] at h h1 ⊢
+  simp only [symRune] at h h1 ⊢
+  obtain ⟨c', pr, st1, heq, hE, hL⟩ := switchBody_sound isRef st.prec c0 st.next.2 h1
+  rw [heq] at h ⊢
+  rw [hg]
+  simp only [finishNext] at h ⊢
+  have hpk : ({ st1 with prec := pr } : GState).peek = st1.peek := rfl
+  rw [hpk] at h ⊢
+  by_cases hp : st1.peek = none
+  · have hnil := (peek_none_iff st1).1 hp
+    simp only [hp, if_true] at h ⊢
+    split at h
+    · exact absurd h (he _ _)
+    · rename_i hcond
+      simp only [hcond, Bool.false_eq_true, if_false]
+      refine ⟨by simp [gp, hnil] , hE, fun _ hr => ?_⟩
+      rw [← hL hnil]
+      subst hr
+      simp only [Bool.true_and, Bool.or_eq_true, decide_eq_true_eq, not_or] at hcond
+      exact hcond
+  · have hnn : gp st1 ≠ [] := fun h0 => hp ((peek_none_iff st1).2 h0)
+    simp only [hp, if_false] at h ⊢
+    exact ⟨by simpa [gp] using hnn, hE, fun h0 => absurd h0 hnn⟩
+
+/-! ### Lifting an invariant of `next` / `error` / `prec :=` through the validator -/
+
+section Lift
+variable (I : GState → Prop) (hn : ∀ s, I s → I s.next.2) (he : ∀ s m, I s → I (s.error m))
+  (hp : ∀ (s : GState) (p : Bool), I s → I { s with prec := p })
+include hn he
+
+theorem classLoop_lift (st : GState) (n : Nat) (h : I st) : I (classLoop st n).2.2 := by
+  fun_induction classLoop st n
+  all_goals (simp +zetaDelta only [] at *)
+  all_goals grind
+
+theorem switchBody_lift (isRef prec0 : Bool) (c : Option Nat) (st0 : GState) (h : I st0) :
+    I (switchBody isRef prec0 c st0).state := by
+  have hc := classLoop_lift I hn he st0 0 h
+  unfold switchBody
+  repeat' split
+  all_goals (simp only [SwitchRes.state] at *)
+  all_goals (try grind)
+
+include hp
+
+omit hn in
+theorem finishNext_lift (isRef : Bool) (r : SwitchRes) (h : I r.state) : I (finishNext isRef r).2 := by
+  unfold finishNext
+  split
+  · exact h
+  · simp only [SwitchRes.state] at h
+    simp only []
+    split
+    · split
+      · exact he _ _ (hp _ _ h)
+      · exact hp _ _ h
+    · exact hp _ _ h
+
+theorem validateNext_lift (isRef : Bool) (st : GState) (h : I st) : I (validateNext isRef st).2 := by
+  unfold validateNext
+  exact finishNext_lift I he hp isRef _ (switchBody_lift I hn he isRef _ _ _ (hn _ h))
+
+theorem loop_lift (isRef : Bool) (st : GState) (h : I st) : I (loop isRef st) := by
+  fun_induction loop isRef st with
+  | case1 st r hch => exact validateNext_lift I hn he hp isRef st h
+  | case2 st r hch hr ih => exact ih (validateNext_lift I hn he hp isRef st h)
+  | case3 st r hch hr => exact validateNext_lift I hn he hp isRef st h
+
+end Lift
+
+/-! ### Suffix invariant -/
+
+theorem gp_suffix_next (src : List Sym) (s : GState) (h : gp s <:+ src) : gp s.next.2 <:+ src := by
+  rw [GState.gp_next]; exact (List.tail_suffix _).trans h
+
+theorem loop_suffix (src : List Sym) (isRef : Bool) (st : GState) (h : gp st <:+ src) : gp (loop isRef st) <:+ src :=
+  loop_lift (fun s => gp s <:+ src) (gp_suffix_next src) (fun _ _ h => h) (fun _ _ h => h) isRef st h
+
+theorem validateNext_suffix (src : List Sym) (isRef : Bool) (st : GState) (h : gp st <:+ src) :
+    gp (validateNext isRef st).2 <:+ src :=
+  validateNext_lift (fun s => gp s <:+ src) (gp_suffix_next src) (fun _ _ h => h) (fun _ _ h => h) isRef st h
+
+/-! ### The loop -/
+
+theorem loop_sound (isRef : Bool) (st : GState) (h : (loop isRef st).errs = []) :
+    Elems false isRef st.prec (gp st) ∧ gp (loop isRef st) = [] := by
+  fun_induction loop isRef st with
+  | case1 st r hch =>
+    have hg : gp st = [] := (pending_eq_nil _).2 hch
+    refine ⟨by rw [hg]; exact .nil _, ?_⟩
+    have := validateNext_suffix (gp st) isRef st (List.suffix_refl _)
+    rw [hg] at this
+    exact List.suffix_nil.1 this
+  | case2 st r hch hr ih =>
+    have hne : gp st ≠ [] := fun h0 => hch ((pending_eq_nil _).1 h0)
+    have h1 : (validateNext isRef st).2.errs = [] := nil_of_prefix_nil (loop_prefix ..) h
+    obtain ⟨_, hb, _⟩ := validateNext_sound isRef st hne h1
+    obtain ⟨ih1, ih2⟩ := ih h
+    exact ⟨hb ih1, ih2⟩
+  | case3 st r hch hr =>
+    have hne : gp st ≠ [] := fun h0 => hch ((pending_eq_nil _).1 h0)
+    obtain ⟨ha, hb, _⟩ := validateNext_sound isRef st hne h
+    have hnil := ha.1 (by simpa using hr)
+    refine ⟨hb ?_, hnil⟩
+    rw [hnil]; exact .nil _
+
+theorem getLast_of_suffix {l src : List Sym} (h : l <:+ src) (hne : l ≠ []) : src.getLast? = l.getLast? := by
+  obtain ⟨pre, rfl⟩ := h
+  rw [List.getLast?_append]
+  cases hl : l.getLast? with
+  | none => exact absurd (List.getLast?_eq_none_iff.1 hl) hne
+  | some c => simp
+
+theorem loop_endOK (src : List Sym) (isRef : Bool) (st : GState) (hs : gp st <:+ src) (hne : gp st ≠ [])
+    (h : (loop isRef st).errs = []) : EndOK isRef src := by
+  fun_induction loop isRef st with
+  | case1 st r hch => exact absurd ((pending_eq_nil _).2 hch) hne
+  | case2 st r hch hr ih =>
+    have h1 : (validateNext isRef st).2.errs = [] := nil_of_prefix_nil (loop_prefix ..) h
+    obtain ⟨ha, _, _⟩ := validateNext_sound isRef st hne h1
+    refine ih (validateNext_suffix src isRef st hs) ?_ h
+    intro h0
+    have := ha.2 h0
+    simp +zetaDelta [this] at hr
+  | case3 st r hch hr =>
+    obtain ⟨ha, _, hc⟩ := validateNext_sound isRef st hne h
+    have hnil := ha.1 (by simpa using hr)
+    have := hc hnil
+    intro hr
+    rw [getLast_of_suffix hs hne]
+    exact this hr
+
+
+
+/-! ### Scanner errors = characters that are NUL or invalid UTF-8 -/
+
+theorem advance_errs_nil (s : Scanner) (d : Sym) (r : List Sym) : (s.advance d r).2 = [] ↔ OkSym d := by
+  unfold Scanner.advance OkSym
+  simp only []
+  cases hb : d.bad <;> simp
+  split
+  · simp_all
+  · split <;> simp_all
+
+theorem next_errs_nil (s : Scanner) : s.next.2.2 = [] ↔ ∀ d, (pending s)[1]? = some d → OkSym d := by
+  unfold Scanner.next
+  cases hc : s.ch with
+  | none => simp [pending, hc]
+  | some c =>
+    simp only [pending, hc, Scanner.read]
+    cases hr : s.rest with
+    | nil => simp
+    | cons d r => simp [advance_errs_nil]
+
+theorem scanErrs_nil (l : List ScanErr) : scanErrs l = [] ↔ l = [] := by
+  unfold scanErrs; simp
+
+/-- All characters already read are fine as long as no error was reported. -/
+def OkI (src : List Sym) (st : GState) : Prop :=
+  ∃ pre, src = pre ++ gp st ∧ (st.errs = [] → AllOk pre ∧ ∀ c, (gp st).head? = some c → OkSym c)
+
+theorem OkI.next {src : List Sym} {st : GState} (h : OkI src st) : OkI src st.next.2 := by
+  obtain ⟨pre, hsrc, hok⟩ := h
+  cases hg : gp st with
+  | nil =>
+    refine ⟨pre, by rw [GState.gp_next, hg]; simpa [hg] using hsrc, fun he => ?_⟩
+    rw [GState.gp_next, hg]
+    have h0 := nil_of_prefix_nil st.next_prefix he
+    exact ⟨(hok h0).1, by simp⟩
+  | cons c t =>
+    refine ⟨pre ++ [c], by rw [GState.gp_next, hg]; simpa [hg] using hsrc, fun he => ?_⟩
+    have h0 := nil_of_prefix_nil st.next_prefix he
+    obtain ⟨h1, h2⟩ := hok h0
+    rw [GState.next_errs, h0, List.nil_append, scanErrs_nil, next_errs_nil] at he
+    rw [GState.gp_next, hg]
+    refine ⟨?_, ?_⟩
+    · intro x hx
+      rcases List.mem_append.1 hx with hx | hx
+      · exact h1 x hx
+      · simp only [List.mem_singleton] at hx; subst hx; exact h2 x (by rw [hg]; rfl)
+    · intro d hd
+      apply he d
+      change (gp st)[1]? = some d
+      rw [hg]
+      cases t with
+      | nil => simp at hd
+      | cons a b => simpa using hd
+
+theorem OkI.error {src : List Sym} {st : GState} (m : GMsg) (h : OkI src st) : OkI src (st.error m) := by
+  obtain ⟨pre, hsrc, hok⟩ := h
+  exact ⟨pre, hsrc, fun he => absurd he (GState.error_errs_ne_nil _ _)⟩
+
+theorem loop_allOk (src : List Sym) (isRef : Bool) (st : GState) (h : OkI src st)
+    (he : (loop isRef st).errs = []) : AllOk src := by
+  have := loop_lift (OkI src) (fun _ h => h.next) (fun _ m h => h.error m) (fun _ _ h => h) isRef st h
+  obtain ⟨pre, hsrc, hok⟩ := this
+  rw [(loop_sound isRef st he).2, List.append_nil] at hsrc
+  rw [hsrc]
+  exact (hok he).1
+
+/-- The pattern does not begin with a byte-order mark (which the scanner would drop silently). -/
+def NoBOM (src : List Sym) : Prop := src.head?.map (·.r) ≠ some 0xFEFF
+
+instance (src : List Sym) : Decidable (NoBOM src) := by unfold NoBOM; infer_instance
+
+theorem init_noBOM (c : Sym) (t : List Sym) (h : c.r ≠ 0xFEFF) :
+    Scanner.init (c :: t) = ({ rest := c :: t } : Scanner).advance c t := by
+  simp only [Scanner.init, Scanner.read, Scanner.advance_ch]
+  simp [h]
+
+theorem init_OkI (src : List Sym) (hb : NoBOM src) (hne : src ≠ []) :
+    let st : GState := { scan := (Scanner.init src).1, errs := scanErrs (Scanner.init src).2 }
+    gp st = src ∧ OkI src st := by
+  cases src with
+  | nil => exact absurd rfl hne
+  | cons c t =>
+    have hc : c.r ≠ 0xFEFF := by simpa [NoBOM] using hb
+    have hp := init_pending (c :: t)
+    simp only [] at hp ⊢
+    have hgp : pending (Scanner.init (c :: t)).1 = c :: t := by rw [hp]; simp [hc]
+    refine ⟨hgp, [], by simp [gp, hgp], fun he => ⟨by intro x hx; simp at hx, ?_⟩⟩
+    simp only [gp, hgp, List.head?_cons, Option.some.injEq]
+    intro d hd
+    subst hd
+    simp only [] at he
+    rw [scanErrs_nil, init_noBOM c t hc, advance_errs_nil] at he
+    exact he
+
+theorem validate_sound (isRef : Bool) (src : List Sym) (hb : NoBOM src) (h : validate isRef src = []) :
+    ValidGlobLoose isRef src := by
+  have he : ∀ (s : GState) m, (s.error m).errs ≠ [] := GState.error_errs_ne_nil
+  unfold validate at h
+  simp only [] at h
+  split at h
+  · simp at h
+  · rename_i hemp
+    have hne : src ≠ [] := by intro h0; subst h0; simp at hemp
+    obtain ⟨hgp, hok⟩ := init_OkI src hb hne
+    generalize hst : ({ scan := (Scanner.init src).1, errs := scanErrs (Scanner.init src).2 } : GState) = st at h hgp hok
+    have hprec : st.prec = false := by subst hst; rfl
+    have hpeek : st.peek = src.head?.map (·.r) := by rw [GState.peek_eq, hgp]
+    unfold ValidGlobLoose ValidGlobGen body RefEnds
+    split at h
+    · -- '/'
+      rename_i h47
+      split at h
+      · exact absurd (nil_of_prefix_nil (loop_prefix ..) h) (he _ _)
+      · rename_i hr
+        have hr' : isRef = false := by simpa using hr
+        have h33 : ¬ src.head?.map (·.r) = some 33 := by rw [← hpeek, h47]; simp
+        simp only [h33, if_false]
+        have := (loop_sound isRef st h).1
+        rw [hgp, hprec] at this
+        exact ⟨loop_allOk src isRef st hok h, hne, this, by simp [hr']⟩
+    · -- '!'
+      rename_i h33
+      have h33' : src.head?.map (·.r) = some 33 := by rw [← hpeek, h33]
+      simp only [h33', if_true]
+      split at h
+      · exact absurd h (he _ _)
+      · rename_i hpk
+        have hg1 : gp st.next.2 = src.tail := by rw [GState.gp_next, hgp]
+        have hne1 : src.tail ≠ [] := by
+          rw [← hg1]; exact fun h0 => hpk ((peek_none_iff _).2 h0)
+        have hs := loop_sound isRef { st.next.2 with prec := false } h
+        have hE := hs.1
+        simp only [] at hE
+        change Elems false isRef false (gp st.next.2) at hE
+        rw [hg1] at hE
+        refine ⟨loop_allOk src isRef { st.next.2 with prec := false } hok.next h, hne1, hE, fun hr => ⟨by simp, ?_⟩⟩
+        have := loop_endOK src isRef { st.next.2 with prec := false } (by change gp st.next.2 <:+ src; rw [hg1]; exact List.tail_suffix _) (by change gp st.next.2 ≠ []; rw [hg1]; exact hne1) h
+        exact this hr
+    · rename_i h47 h33
+      have h33' : ¬ src.head?.map (·.r) = some 33 := by rw [← hpeek]; exact h33
+      simp only [h33', if_false]
+      have hs := (loop_sound isRef st h).1
+      rw [hgp, hprec] at hs
+      refine ⟨loop_allOk src isRef st hok h, hne, hs, fun hr => ⟨by rw [← hpeek]; exact h47, ?_⟩⟩
+      exact loop_endOK src isRef st (by rw [hgp]; exact List.suffix_refl _) (by rw [hgp]; exact hne) h hr
+
 end AL.Glob
